@@ -25,6 +25,11 @@ RULE = ("A history = up to 12 (thorough 30) generated steps executed in ONE fres
         "executed alone in another process forked from the zygote; after every step all programs returned earlier must be unchanged "
         "unless the machine itself mutated them. Non-trivial = a failed load followed later by a probe/valid script mentioning a name "
         "the failed script had defined. Distinct = SHA-1 of the step list. The step list shrinks as one value.")
+RULE += (" One group in seven loads a 'conversion corner' script (scalars initialised from whole arrays, complex values for real "
+         "variables) and later a script whose outcome passes through NumPy's warning / floating-point error machinery (computed "
+         "complex values in real loops, division by a zero element, overflow, arguments outside a function's real domain); the "
+         "worker silences warnings once per process and never scopes a filter around a load, so settings a load leaves behind "
+         "stay visible.")
 ASSUMPTIONS = ["the zygote never loads a script, so its children start from the state 'package imported'",
                "temporary directory names are scrubbed from messages"]
 BUDGET = {"quick": (320, 4), "thorough": (6400, 16)}
@@ -235,9 +240,35 @@ def step(draw):
     return {"kind": "mutate", "target": draw(st.integers(0, 5)), "how": draw(st.sampled_from(list(range(9)) + [9, 10] * 3)), "role": k}
 
 
+_H = "name corner\nversion 1.0\n"
+# declarations that take the evaluator through its rarely used conversion paths (scalars initialised from whole arrays,
+# complex values where real ones are declared): loaded or refused, the same way whatever came before
+_CORNER = [_H + "float array A =\n    1.0, 2.0\nfloat x = A\nG(x) | 0\n",
+           _H + "complex array U =\n    1.0+2j, 2.0\nfloat x = U\nG(x) | 0\n",
+           _H + "float array A =\n    1.5, 2.0\nint n = A\nG(n) | 0\n",
+           _H + "complex array U =\n    1.0+2j, 2.0\ncomplex z = U\nint n = U\n",
+           _H + "complex z = 1+2j\nfloat x = z*2\n",
+           _H + "float array A =\n    1.0, 2.0\nstr s = A\nbool b = A\n"]
+# scripts whose outcome passes through NumPy's warning / floating-point error machinery (a computed complex value in a real
+# loop, division by a zero array element, overflow, function arguments outside the real domain): interpreter-wide settings
+# left behind by an earlier load (warning filters, np.seterr) would change what they do
+_SENSITIVE = [_H + "for float v in 2*1j, 1.0\n    G(v) | 0\n",
+              _H + "complex array U =\n    1.0+2j, 2.0\nfor float v in U[0], 1.0\n    G(v) | 0\n",
+              _H + "complex array U =\n    1.0+2j, 2.0\nfor int v in U[1], U[0]\n    G(v) | 0\n",
+              _H + "float array A =\n    0.0, 2.0\nfloat x = 1.0/A[0]\nG(x, A[1]/A[0]) | 0\n",
+              _H + "G(log(0), sqrt(-1), arcsin(2)) | 0\n",
+              _H + "float array A =\n    1e300, 2.0\nG(A[0]*A[0], exp(1000)) | 0\n",
+              _H + "int array A =\n    9223372036854775807, 2\nG(A[0]+A[1]) | 0\n",
+              _H + "G(q0/0.0 + 1) | 0\nG(1e308*10*{a}) | 1\n"]
+
+
 @st.composite
 def group(draw):
     """One step, or the scenario 'load S; modify the program it returned; load S again'."""
+    if draw(st.integers(0, 6)) == 0:
+        first = {"kind": "loads", "text": draw(st.sampled_from(_CORNER + _SENSITIVE)), "role": "conversion-corner"}
+        between = draw(st.lists(step(), max_size=1))
+        return [first] + between + [{"kind": "loads", "text": draw(st.sampled_from(_SENSITIVE)), "role": "settings-sensitive"}]
     if draw(st.integers(0, 7)) == 0:
         # the same script once as a tdm program and once with another program type (p-arrays by name vs by value)
         sc = draw(S.script(_cfg(tdm=True)))
